@@ -233,16 +233,13 @@ Qed.
 (* C01 for regular polygons, complete                                  *)
 
 Lemma copy_image_rigid (st : pstateR) (i j : nat) (a b : Z) :
-  wf_state st -> rigid_inputs st -> (i < length (p_syms NumR st))%nat -> (j < length (p_syms NumR st))%nat ->
+  wf_state st -> rigid_inputs st -> (i < copies st)%nat -> (j < copies st)%nat ->
   (affine_row (copy st i) /\ rigid (copy st i)) /\ (affine_row (image st j a b) /\ rigid (image st j a b)).
 Proof.
   intros Hwf [Hrig Hcs] Hi Hj.
-  assert (Hpl : forall q, (q < length (p_syms NumR st))%nat ->
-            affine_row (nth q (relative_positions NumR st) dflt) /\ rigid (nth q (relative_positions NumR st) dflt)).
-  { intros q Hq. split; [apply (nth_rel_spec st q Hwf Hq)|].
-    unfold relative_positions. rewrite positions_nth by exact Hq.
-    destruct Hwf as [Hs _ _ _ _ _]. rewrite Forall_forall in Hs, Hrig.
-    apply placement_rigid; [apply Hs|apply Hrig|exact Hcs]; now apply nth_In. }
+  assert (Hpl : forall q, (q < copies st)%nat ->
+            affine_row (nth q (relative_positions NumR st) dflt) /\ rigid (nth q (relative_positions NumR st) dflt))
+    by (intros q Hq; apply rel_rigid; [exact Hwf|split; assumption|exact Hq]).
   destruct (Hpl i Hi) as [Ai Gi]. destruct (Hpl j Hj) as [Aj Gj]. split.
   - rewrite (copy_is_cart st i Hi). split; [exact Ai|exact Gi].
   - unfold image, to_cartesian_translate. destruct (tf_position NumR _). split; [exact Aj|exact Gj].
@@ -255,7 +252,7 @@ Theorem scored_regular_polygon_packing_disjoint (st : pstateR) (n : nat) (fmin_ 
   wf_state st -> rigid_inputs st -> p_shape NumR st = Poly (polygon NumR PI sin cos n) ->
   p_radius NumR st = shape_radius NumR fmin_ (p_shape NumR st) ->
   packed_score NumR st <> None ->
-  forall i j (a b : Z), (i < length (p_syms NumR st))%nat -> (j < length (p_syms NumR st))%nat ->
+  forall i j (a b : Z), (i < copies st)%nat -> (j < copies st)%nat ->
   ~ (i = j /\ a = 0%Z /\ b = 0%Z) ->
   let l := polygon NumR PI sin cos n in
   forall x, ~ (strictly_inside (-1 * det2 (copy st i)) (placed_poly (copy st i) l) x
